@@ -16,6 +16,10 @@ enum Model {
     Node(Vec<String>, String),
     Str(String),
     Closure(Vec<i64>),
+    /// a closure (which captured an array) held in a slot of an array (0), a struct next to an
+    /// int (1) or a tuple next to an int (2): copying the container must copy the closure and
+    /// what it captured
+    ClosureBox(Vec<i64>, u8),
     OptArr(Vec<i64>),
     Int(i64),
     /// array<Rec>: (name, vals) per element - three levels deep
@@ -120,6 +124,22 @@ fn opt_push(o: option<array<int>>, x: int) {
 fn counter(a: array<int>) {
     (i: int) -> a.len() + i
 }
+type Handlers = {
+    on_event: int -> int
+    weight: int
+}
+fn call_arr(fs: array<int -> int>) -> int {
+    let f = fs[0]
+    f(0)
+}
+fn call_rec(h: Handlers) -> int {
+    let f = h.on_event
+    f(0) + h.weight - 7
+}
+fn call_tup(t: (int -> int, int)) -> int {
+    let (f, w) = t
+    f(0) + w - 7
+}
 fn work(n: int) -> int {
     var s = 0
     let junk = []
@@ -141,7 +161,8 @@ fn js(a: &[String]) -> String {
 
 impl Model {
     fn fresh(rng: &mut Rng, g: &mut Gen) -> Model {
-        match rng.below(22) {
+        match rng.below(25) {
+            22..=24 => Model::ClosureBox(vec![4, 5], rng.below(3) as u8),
             20 | 21 => Model::Port { tag: "p1".into() },
             12..=19 => {
                 let depth = rng.range(1, 3) as u32;
@@ -182,6 +203,9 @@ impl Model {
             Model::Node(..) => "enum-with-array-payload",
             Model::Str(_) => "string",
             Model::Closure(_) => "closure-capturing-array",
+            Model::ClosureBox(_, 0) => "array<closure-capturing-array>",
+            Model::ClosureBox(_, 1) => "struct{closure-capturing-array,int}",
+            Model::ClosureBox(..) => "(closure-capturing-array,int)",
             Model::OptArr(_) => "option<array<int>>",
             Model::Int(_) => "int",
             Model::ArrRec(_) => "array<struct{string,array<int>}>",
@@ -232,6 +256,15 @@ impl Model {
                 "var {v}_arr = [{}]\nvar {v} = counter({v}_arr)\n",
                 a.iter().map(|x| x.to_string()).collect::<Vec<_>>().join(", ")
             ),
+            Model::ClosureBox(a, how) => format!(
+                "var {v}_arr = [{}]\nvar {v} = {}\n",
+                a.iter().map(|x| x.to_string()).collect::<Vec<_>>().join(", "),
+                match how {
+                    0 => format!("[counter({v}_arr)]"),
+                    1 => format!("Handlers(counter({v}_arr), 7)"),
+                    _ => format!("(counter({v}_arr), 7)"),
+                }
+            ),
             Model::OptArr(a) => format!(
                 "var {v}: option<array<int>> = option.some([{}])\n",
                 a.iter().map(|x| x.to_string()).collect::<Vec<_>>().join(", ")
@@ -276,6 +309,9 @@ impl Model {
             Model::Node(..) => format!("show_shape({v})"),
             Model::Str(_) => v.to_string(),
             Model::Closure(_) => format!("(\"\" .. {v}(0))"),
+            Model::ClosureBox(_, 0) => format!("(\"\" .. call_arr({v}))"),
+            Model::ClosureBox(_, 1) => format!("(\"\" .. call_rec({v}))"),
+            Model::ClosureBox(..) => format!("(\"\" .. call_tup({v}))"),
             Model::OptArr(_) => format!("show_opt({v})"),
             Model::Int(_) => format!("(\"\" .. {v})"),
             Model::ArrRec(_) => format!("show_recs({v})"),
@@ -294,7 +330,7 @@ impl Model {
             Model::Tup(n, xs) => format!("{n}:{}", js(xs)),
             Model::Node(xs, y) => format!("N{}{y}", js(xs)),
             Model::Str(s) => s.clone(),
-            Model::Closure(a) => a.len().to_string(),
+            Model::Closure(a) | Model::ClosureBox(a, _) => a.len().to_string(),
             Model::OptArr(a) => format!("some:{}", ji(a)),
             Model::Int(n) => n.to_string(),
             Model::ArrRec(rs) => rs.iter().map(|(name, vals)| format!("[{name}:{}]", ji(vals))).collect(),
@@ -373,7 +409,7 @@ impl Model {
                 s.push_str(&format!("{tag}{n}"));
                 format!("{v} = {v} .. \"{tag}\" .. {n}\n")
             }
-            Model::Closure(a) => {
+            Model::Closure(a) | Model::ClosureBox(a, _) => {
                 if in_task {
                     String::new()
                 } else {
@@ -583,6 +619,14 @@ pub fn generate(rng: &mut Rng) -> Workload {
                 Model::Node(..) => format!("{v} = Shape.Leaf(\"z\" .. 0)\n"),
                 Model::Str(_) => format!("{v} = \"z\" .. 0\n"),
                 Model::Closure(_) => format!("{v}_arr = [0]\n{v} = counter({v}_arr)\n"),
+                Model::ClosureBox(_, how) => format!(
+                    "{v}_arr = [0]\n{v} = {}\n",
+                    match how {
+                        0 => format!("[counter({v}_arr)]"),
+                        1 => format!("Handlers(counter({v}_arr), 7)"),
+                        _ => format!("(counter({v}_arr), 7)"),
+                    }
+                ),
                 Model::OptArr(_) => format!("{v} = option.none\n"),
                 Model::Int(_) => format!("{v} = 0\n"),
                 Model::ArrRec(_) => format!("{v} = [Rec(\"z\" .. 0, [0])]\n"),
